@@ -71,7 +71,7 @@ def write_cif(rng, rec, path, with_occ, mult_key, with_types, with_global):
     L += ['data_test', '_cell_length_a %s' % fmt_esd(rng, rec['cell'][0], 4), '_cell_length_b %s' % fmt_esd(rng, rec['cell'][1], 4),
           '_cell_length_c %s' % fmt_esd(rng, rec['cell'][2], 4), '_cell_angle_alpha %s' % fmt_esd(rng, rec['cell'][3], 3),
           '_cell_angle_beta %s' % fmt_esd(rng, rec['cell'][4], 3), '_cell_angle_gamma %s' % fmt_esd(rng, rec['cell'][5], 3),
-          "_symmetry_space_group_name_H-M '%s'" % rec['spaced']]
+          rec.get('symbol_item') or ("_symmetry_space_group_name_H-M '%s'" % rec['spaced'])]
     disp = {}
     if with_types:
         L += ['loop_', '_atom_type_symbol', '_atom_type_scat_dispersion_real', '_atom_type_scat_dispersion_imag']
@@ -118,6 +118,21 @@ def check_cif(rng, names, tmp):
     from xfab import structure
     rec = gen_record(rng, names)
     rec['spaced'] = ' '.join(rec['name']) if rng.random() < 0.5 else rec['name']
+    k = rng.random()
+    if k < 0.3:
+        # other legal spellings of the same data value: tabs / several blanks between the parts, leading or trailing white space inside the quotes, double quotes,
+        # a semicolon-delimited text field on its own lines
+        parts = list(rec['name'])
+        sep = rng.choice(['\t', '  ', ' \t', ' '])
+        rec['spaced'] = rng.choice(['', ' ', '\t']) + sep.join(parts) + rng.choice(['', ' ', '\t', '  '])
+        form = rng.choice(['single', 'double', 'text'])
+        if form == 'single':
+            rec['symbol_item'] = "_symmetry_space_group_name_H-M '%s'" % rec['spaced']
+        elif form == 'double':
+            rec['symbol_item'] = '_symmetry_space_group_name_H-M "%s"' % rec['spaced']
+        else:
+            rec['spaced'] = rec['spaced'].strip('\t ') or rec['name']
+            rec['symbol_item'] = '_symmetry_space_group_name_H-M\n;%s\n;' % rec['spaced']
     # Bani and Uani in one file would need two aniso loops with one label list: keep one anisotropic kind per file
     kinds = set(a['kind'] for a in rec['atoms'] if a['kind'] in ('Uani', 'Bani'))
     if len(kinds) == 2:
